@@ -14,6 +14,8 @@ def build_input(case):
     """case: {'arg':..., 'mut':[counts], 'scale':name, 'H':{'kind':...}, 'above_root':0/1}"""
     ts = tsspace.arg_ts(case["arg"])
     ts = tsspace.add_mutations(ts, case["mut"], above_root=case.get("above_root", 0), recurrent=case.get("recurrent", False))
+    if case.get("merge_sites"):
+        ts = tsspace.merge_sites_per_locus(ts)
     s = SCALES[case.get("scale", "1")]
     H = case.get("H", {"kind": "cont"})
     if H["kind"] == "internal":
